@@ -163,26 +163,56 @@ theorem relSegs_normal (name : Str) : ∀ s ∈ relSegs name, Normal s :=
 
 /-! ### non-interference: the handler only looks at paths on the way to, or below, the document root -/
 
+def NotLink (n : Option Node) : Prop := ∀ t, n ≠ some (Node.link t)
+
+theorem derefAt_of_notLink (t : List Entry) (p : List Str) (h : NotLink (nodeAt t p)) : derefAt t p = p := by
+  unfold derefAt
+  cases hn : nodeAt t p with
+  | none => rfl
+  | some n =>
+    cases n with
+    | file c => rfl
+    | dir => rfl
+    | link l => exact absurd hn (h l)
+
+theorem nodeAt_notLink (tree : List Entry) (h : ∀ e0 ∈ tree, ∀ t, e0.node ≠ Node.link t) (p : List Str) :
+    NotLink (nodeAt tree p) := by
+  intro t
+  unfold nodeAt
+  cases hf : List.find? (fun e => e.path == p) tree with
+  | some x =>
+    intro heq
+    exact h x (List.mem_of_find?_eq_some hf) t (Option.some.inj heq)
+  | none =>
+    simp only []
+    split <;> simp
+
 theorem walk_congr (t1 t2 : List Entry) (target : List Str)
-    (h : ∀ p, p <+: target → nodeAt t1 p = nodeAt t2 p) :
+    (h : ∀ p, p <+: target → nodeAt t1 p = nodeAt t2 p ∧ NotLink (nodeAt t1 p)) :
     ∀ (rest pre : List Str), pre ++ rest = target → walk t1 pre rest = walk t2 pre rest := by
   intro rest
   induction rest with
   | nil =>
     intro pre hp
-    have : nodeAt t1 pre = nodeAt t2 pre := h pre (by rw [← hp]; simp)
-    simp only [walk, this]
+    have hh := h pre (by rw [← hp]; simp)
+    have d1 := derefAt_of_notLink t1 pre hh.2
+    have d2 := derefAt_of_notLink t2 pre (by rw [← hh.1]; exact hh.2)
+    simp only [walk, d1, d2, hh.1]
   | cons s rest ih =>
     intro pre hp
-    have h1 : nodeAt t1 pre = nodeAt t2 pre := h pre (by rw [← hp]; exact List.prefix_append _ _)
+    have hh := h pre (by rw [← hp]; exact List.prefix_append _ _)
+    have d1 := derefAt_of_notLink t1 pre hh.2
+    have d2 := derefAt_of_notLink t2 pre (by rw [← hh.1]; exact hh.2)
     have h2 := ih (pre ++ [s]) (by rw [← hp]; simp)
-    simp only [walk, h1, h2]
+    simp only [walk, d1, d2, hh.1, h2]
 
 /-- the two configurations have the same sandbox and root, and their trees agree at every place that is an
-    ancestor of the root, the root itself, or below the root (they may differ anywhere else) -/
+    ancestor of the root, the root itself, or below the root (they may differ anywhere else); none of these
+    places is a symbolic link (a link may lead out of the root: the stated assumption of C50) -/
 def AgreeBelowRoot (c1 c2 : Cfg) : Prop :=
   c1.sb = c2.sb ∧ c1.root = c2.root ∧
-  ∀ p, (c1.sb ++ p <+: rootSegs c1 ∨ rootSegs c1 <+: c1.sb ++ p) → nodeAt c1.tree p = nodeAt c2.tree p
+  ∀ p, (c1.sb ++ p <+: rootSegs c1 ∨ rootSegs c1 <+: c1.sb ++ p) →
+    nodeAt c1.tree p = nodeAt c2.tree p ∧ NotLink (nodeAt c1.tree p)
 
 theorem resolve_congr (c1 c2 : Cfg) (h : AgreeBelowRoot c1 c2) (segs : List Str) :
     resolve c1.tree c1.sb (rootSegs c1 ++ segs) = resolve c2.tree c2.sb (rootSegs c2 ++ segs) := by
